@@ -69,8 +69,8 @@ def run(repo, laws, classes=None, timeout_ms=None):
     timeout_ms = timeout_ms or solve.TIMEOUT_MS
     jobs = [(repo.src, c, tuple(laws), timeout_ms) for c in classes]
     out = {"results": [], "sanity": [], "undecided": [], "functions": [], "hashes": {}, "group_hashes": {}, "regions": {}, "syntactic": []}
-    with ProcessPoolExecutor(max_workers=min(16, len(jobs))) as ex:
-        for cname, plain, undecided, fns, extra in ex.map(_work, jobs):
+    if True:
+        for cname, plain, undecided, fns, extra in solve.robust_map(_work, jobs, min(16, len(jobs))):
             for name, status, secs, backend, expect, meta, detail in plain:
                 r = Result(name, status, secs, backend, expect, meta, detail)
                 (out["sanity"] if expect != "unsat" else out["results"]).append(r)
